@@ -192,7 +192,18 @@ def _gen_roundtrip(rng, special=None):
         rng.shuffle(class_values)
     el = rng.random() < 0.4
     sl = m if (el or rng.random() < 0.25) else -1
-    return {"kind": "roundtrip", "regime": regime, "values": rows, "labels": labels,
+    # row labels of the panel handed to the writer: default RangeIndex, a permutation of 0..n-1 (a
+    # shuffled / sorted panel), or other integers (a selection): instances are written BY POSITION
+    u = rng.random()
+    row_index = None
+    if len(rows) >= 2 and u < 0.3:
+        row_index = list(range(len(rows)))
+        while row_index == sorted(row_index):
+            rng.shuffle(row_index)
+    elif u < 0.4:
+        row_index = sorted(rng.sample(range(50), len(rows)), reverse=rng.random() < 0.5)
+    return {"row_index": row_index,
+            "kind": "roundtrip", "regime": regime, "values": rows, "labels": labels,
             "class_values": class_values, "name": rng.choice(NAMES),
             "comment": rng.choice(COMMENTS), "equal_length": el, "series_length": sl}
 
@@ -789,6 +800,10 @@ def _run_impl(case):
         from sktime.utils.data_io import load_from_tsfile_to_dataframe, write_dataframe_to_tsfile
         X = pd.DataFrame()
         X["dim_0"] = [pd.Series(r) for r in case["values"]]
+        if case.get("row_index") is not None:
+            # the panel as a caller has it after shuffling / sorting / selecting: row labels are not
+            # 0..n-1 in order (a permutation of them, or any other integers); cases are positional
+            X.index = list(case["row_index"])
         printed = [pd.Series(r).to_string(index=False, header=False, na_rep="NaN").split("\n")
                    for r in case["values"]]
         wrapped = textwrap.wrap("# " + case["comment"]) if case["comment"] else []
@@ -1207,6 +1222,14 @@ def shrink(case):
             d["values"] = c["values"][:i] + c["values"][i + 1:]
             if c["class_values"]:
                 d["class_values"] = c["class_values"][:i] + c["class_values"][i + 1:]
+            if c.get("row_index") is not None:
+                # keep the kind of row labels: the remaining labels, re-ranked to 0..n-2
+                rest = c["row_index"][:i] + c["row_index"][i + 1:]
+                d["row_index"] = [sorted(rest).index(v) for v in rest]
+            yield d
+        if c.get("row_index") is not None:
+            d = dict(c)
+            d["row_index"] = None
             yield d
     m = len(c["values"][0])
     if m > 1:
@@ -1432,6 +1455,9 @@ def distribution(cases, results):
         if k == "roundtrip":
             d["roundtrip:regime=%s" % c["regime"]] += 1
             d["roundtrip:labels=%d" % len(c["labels"] or [])] += 1
+            ri = c.get("row_index")
+            d["roundtrip:row-labels=%s" % ("range" if ri is None else "permutation"
+                                           if sorted(ri) == list(range(len(ri))) else "other")] += 1
             labs = "".join(str(v) for v in (c["labels"] or []))
             d["roundtrip:label-chars=%s" % ("non-ascii" if any(ord(ch) > 126 for ch in labs) else
                                             "special" if any(not ch.isalnum() and ch != "_"
